@@ -55,7 +55,7 @@ class Tr:
             s = ast.unparse(n)
             if s in ("ice.n0", "ice.k", "ice.a"):
                 return "I." + s.split(".")[1]
-            if s == "scipy.constants.c":
+            if s in ("scipy.constants.c", "scipy.constants.speed_of_light"):   # the same scipy constant
                 return "Ray.cLight"
             raise Shape("attribute %s" % s)
         if isinstance(n, ast.UnaryOp) and isinstance(n.op, ast.USub):
